@@ -7,7 +7,7 @@ from typing import Dict, List, Optional, Tuple
 from sa.paths import Path, U, strip_v
 from sa.report import Ctx
 from rules import generic as G
-from rules.common import S, appends, enum_paths, fact_where, find_calls, label_source, loops_of
+from rules.common import label_ok, S, appends, enum_paths, fact_where, find_calls, label_source, loops_of
 
 EXPLANATION = (
     "Decides: (1) the status-flow decision table – get_status is enumerated over {no GT, result correct, FP-labelled GT} "
@@ -137,9 +137,8 @@ def _thrlabel(ctx: Ctx, fi, p: Path, res: str, where: str) -> None:
         a = e.kwargs.get("semantic_label") or (e.args[0] if e.args else None)
         if a is None:
             continue
-        src = label_source(a, res)
-        gt_known = fact_where(p, lambda k: k == f"none:{res}.ground_truth_object") is False
-        ok = src == "gt-else-est" or (src == "gt" and gt_known)
+        ok, src = label_ok(ctx, p, a, res)
+        ctx.require(ok is not None, f"{where}: the label used for the threshold look-up (`{S(a)[:80]}`) is not recognised")
         ctx.check(ok, "R-THRLABEL", where, "matching-threshold",
                   f"{where}: the per-label matching threshold is looked up with `{U(a)}` ({src}); it must be the ground truth's label (falling back to the estimate's only without ground truth)",
                   fi=fi, node=e.node, expected=f"{res}.ground_truth_object.semantic_label", found=S(a))
